@@ -208,7 +208,11 @@ def main():
     ev = {"property_id": prop, "tier": tier, "seed": seed, "level": out.get("level", "translation_validation"),
           "coverage": cov, "assumptions": out.get("assumptions", []), "wall_s": round(wall, 1),
           "violations": unlisted}
-    with open(os.path.join(VERIF, "evidence", "%s.json" % prop), "w") as f:
+    # (engine/mutate_test.sh and engine/seed_matrix.py run the checks against deliberately broken trees and point this
+    # elsewhere, so that evidence/ always describes a run against /repo as it stands)
+    evdir = os.environ.get("VERIF_EVIDENCE_DIR") or os.path.join(VERIF, "evidence")
+    os.makedirs(evdir, exist_ok=True)
+    with open(os.path.join(evdir, "%s.json" % prop), "w") as f:
         json.dump(ev, f, indent=1)
     print("%s %s: %s in %.0fs (exit %d)" % (prop, tier, out.get("headline", ""), wall, code))
     return code
